@@ -27,6 +27,7 @@ import PrologVerif.Proofs.RelList
 import PrologVerif.Proofs.Utf8
 import PrologVerif.Proofs.RelUnify
 import PrologVerif.Proofs.RelSld
+import PrologVerif.Proofs.RelAux
 namespace PrologVerif.C16
 open PrologVerif PrologVerif.Rel PrologVerif.Relations
 
@@ -64,9 +65,6 @@ theorem C16_atom_length_exact {a l : Term} {ans : Answers} (h : atomLength a l =
         simp [hr]
       · simp
   · cases h
-
-theorem modeErrors_atom_length (a l : Term) : modeErrors "atom_length" [a, l] =
-    (if isVar a then [instErr] else mustBeAtomOrVar a) ++ notLessThanZero l := rfl
 
 theorem C16_atom_length_errors (a l : Term) : ErrorsOk "atom_length" [a, l] (atomLength a l) := by
   apply errorsOk_of _ _ (modeErrors_atom_length a l) rfl
@@ -137,10 +135,6 @@ theorem C16_atom_concat_exact {a1 a2 a3 : Term} {ans : Answers} (h : atomConcat 
           rw [mkAtom_inj h.1, mkAtom_inj h.2]
   · cases h
 
-theorem modeErrors_atom_concat (a b c : Term) : modeErrors "atom_concat" [a, b, c] =
-    (if isVar c ∧ (isVar a ∨ isVar b) then [instErr] else []) ++
-      mustBeAtomOrVar a ++ mustBeAtomOrVar b ++ mustBeAtomOrVar c := rfl
-
 theorem C16_atom_concat_errors (a b c : Term) : ErrorsOk "atom_concat" [a, b, c] (atomConcat a b c) := by
   apply errorsOk_of _ _ (modeErrors_atom_concat a b c) rfl
   simp only [mustBeAtomOrVar_eq]
@@ -205,10 +199,6 @@ theorem C16_sub_atom_exact {w b l a s : Term} {ans : Answers} (h : Rel.subAtom w
       rw [← hsub.2, mkAtom_toList]
     · exact subAtomCands_nodup _
   · cases h
-
-theorem modeErrors_sub_atom (w b l a s : Term) : modeErrors "sub_atom" [w, b, l, a, s] =
-    (if isVar w then [instErr] else mustBeAtomOrVar w) ++ notLessThanZero b ++ notLessThanZero l ++
-      notLessThanZero a ++ mustBeAtomOrVar s := rfl
 
 theorem C16_sub_atom_errors (w b l a s : Term) :
     ErrorsOk "sub_atom" [w, b, l, a, s] (Rel.subAtom w b l a s) := by
@@ -336,28 +326,6 @@ theorem C16_atom_codes_exact {a l : Term} {ans : Answers} (h : Rel.atomCodes a l
 
 /-! ## char_code/2 -/
 
-theorem charCode_atom_aux {s : String} {n : Term} {ans : Answers}
-    (h : charCodeOfAtom (.atom s) n s = Except.ok ans) :
-    Exact charCodeT [.atom s, n] ans := by
-  unfold charCodeOfAtom at h
-  split at h
-  · rename_i ch hs
-    cases h
-    apply exact_selectCands
-    · intro t ht; simp at ht; subst ht
-      simp [charCodeT, Relations.charCode, hs]
-    · intro t hr hi
-      obtain ⟨σ, rfl⟩ := hi
-      simp only [List.map, substT_atom] at hr ⊢
-      obtain ⟨s', ch', ht, hs'⟩ := charCodeT_inv hr
-      simp only [List.cons.injEq, Term.atom.injEq, and_true] at ht
-      obtain ⟨rfl, hn⟩ := ht
-      rw [hs] at hs'
-      simp at hs'
-      simp [hn, hs']
-    · simp
-  · cases h
-
 theorem C16_char_code_exact {c n : Term} {ans : Answers} (h : Rel.charCode c n = .ok ans) :
     Exact charCodeT [c, n] ans := by
   unfold Rel.charCode at h
@@ -394,10 +362,6 @@ theorem C16_char_code_exact {c n : Term} {ans : Answers} (h : Rel.charCode c n =
     · cases h
   · cases h
 
-theorem modeErrors_atom_chars (a l : Term) : modeErrors "atom_chars" [a, l] =
-    if isVar a then listErrors false l ++ charElemErrors true l.spine.1
-    else mustBeAtomOrVar a ++ listErrors true l ++ charElemErrors false l.spine.1 := rfl
-
 theorem C16_atom_chars_errors (a l : Term) : ErrorsOk "atom_chars" [a, l] (Rel.atomChars a l) := by
   apply errorsOk_of _ [] (modeErrors_atom_chars a l) rfl
   unfold Rel.atomChars
@@ -421,10 +385,6 @@ theorem C16_atom_chars_errors (a l : Term) : ErrorsOk "atom_chars" [a, l] (Rel.a
     have h2 := instErr_not_mem_listErrors_true l
     cases a <;> simp_all [isVar, mustBeAtomOrVar_eq, isVarOrAtom]
 
-theorem modeErrors_atom_codes (a l : Term) : modeErrors "atom_codes" [a, l] =
-    if isVar a then listErrors false l ++ codeElemErrors true l.spine.1
-    else mustBeAtomOrVar a ++ listErrors true l ++ codeElemErrors false l.spine.1 := rfl
-
 theorem C16_atom_codes_errors (a l : Term) : ErrorsOk "atom_codes" [a, l] (Rel.atomCodes a l) := by
   apply errorsOk_of _ [] (modeErrors_atom_codes a l) rfl
   unfold Rel.atomCodes
@@ -447,28 +407,6 @@ theorem C16_atom_codes_errors (a l : Term) : ErrorsOk "atom_codes" [a, l] (Rel.a
   · have h1 := instErr_not_mem_codeElemErrors_lax l.spine.1
     have h2 := instErr_not_mem_listErrors_true l
     cases a <;> simp_all [isVar, mustBeAtomOrVar_eq, isVarOrAtom]
-
-theorem modeErrors_char_code (c n : Term) : modeErrors "char_code" [c, n] =
-    (if isVar c ∧ isVar n then [instErr] else []) ++
-      (match c with
-        | .var _ => []
-        | .atom s => if s.toList.length = 1 then [] else [typeErr "character" c]
-        | _ => [typeErr "character" c]) ++
-      (match n with
-        | .var _ => []
-        | .int i => if isVar c ∧ !isCharCode i then [representationErr "character_code"] else []
-        | _ => [typeErr "integer" n]) := rfl
-
-theorem charCodeOfAtom_cases (s : String) (n : Term) :
-    (s.toList.length = 1 ∧ ∃ ans, charCodeOfAtom (.atom s) n s = .ok ans) ∨
-    (¬ s.toList.length = 1 ∧ charCodeOfAtom (.atom s) n s = .error (typeErr "character" (.atom s))) := by
-  unfold charCodeOfAtom
-  split
-  · rename_i ch hs; left; simp [hs]
-  · rename_i hne
-    right
-    refine ⟨?_, rfl⟩
-    rw [length_one_iff]; rintro ⟨ch, hc⟩; exact hne ch hc
 
 theorem C16_char_code_errors (c n : Term) : ErrorsOk "char_code" [c, n] (Rel.charCode c n) := by
   apply errorsOk_of _ [] (modeErrors_char_code c n) rfl
@@ -502,37 +440,9 @@ theorem C16_char_code_errors (c n : Term) : ErrorsOk "char_code" [c, n] (Rel.cha
 
 /-- per prefix: the first `k` alternatives are `low, low+1, …` (never beyond `high`, no wrap-around
     at max_integer: the successor is only computed while `low < high`) -/
-theorem C16_between_prefix : (k : Nat) → (low high : Int) → low ≤ high →
-    betweenAlts k low high = (List.range (min k (high - low + 1).toNat)).map fun i => low + Int.ofNat i
-  | 0, low, high, _ => by simp [betweenAlts]
-  | k + 1, low, high, h => by
-    unfold betweenAlts
-    by_cases hlt : low < high
-    · simp only [hlt, if_true]
-      rw [C16_between_prefix k (low + 1) high (by omega)]
-      have : min (k + 1) (high - low + 1).toNat = min k (high - (low + 1) + 1).toNat + 1 := by omega
-      rw [this, List.range_succ_eq_map]
-      simp [List.map_map, Function.comp_def]
-      intro a _
-      omega
-    · have : high = low := by omega
-      subst this
-      simp
-
-theorem mem_betweenAlts {k : Nat} {low high x : Int} (h : low ≤ high) (hk : (high - low + 1).toNat ≤ k) :
-    x ∈ betweenAlts k low high ↔ low ≤ x ∧ x ≤ high := by
-  rw [C16_between_prefix k low high h, Nat.min_eq_right hk]
-  simp only [List.mem_map, List.mem_range]
-  constructor
-  · rintro ⟨i, hi, rfl⟩; simp only [Int.ofNat_eq_natCast]; omega
-  · rintro ⟨h1, h2⟩; exact ⟨(x - low).toNat, by omega, by simp only [Int.ofNat_eq_natCast]; omega⟩
-
-theorem betweenAlts_nodup (k : Nat) (low high : Int) (h : low ≤ high) : (betweenAlts k low high).Nodup := by
-  rw [C16_between_prefix k low high h]
-  apply nodup_map_on _ List.nodup_range
-  intro i _ j _ hij
-  simp only [Int.ofNat_eq_natCast] at hij
-  omega
+theorem C16_between_prefix (k : Nat) (low high : Int) (h : low ≤ high) :
+    betweenAlts k low high = (List.range (min k (high - low + 1).toNat)).map fun i => low + Int.ofNat i :=
+  betweenAlts_prefix k low high h
 
 /-- `k` answers are enough for the call (always true for a bound value; for an unbound one the
     whole range is enumerated) -/
@@ -601,9 +511,6 @@ theorem C16_between_exact {k : Nat} {l u x : Term} {ans : Answers} (hk : Between
   · cases h
   · cases h
 
-theorem modeErrors_between (l h x : Term) : modeErrors "between" [l, h, x] =
-    (if isVar l ∨ isVar h then [instErr] else []) ++ mustBeIntOrVar l ++ mustBeIntOrVar h ++ mustBeIntOrVar x := rfl
-
 theorem C16_between_errors (k : Nat) (l u x : Term) : ErrorsOk "between" [l, u, x] (Rel.between k l u x) := by
   apply errorsOk_of _ [] (modeErrors_between l u x) rfl
   unfold Rel.between
@@ -612,18 +519,6 @@ theorem C16_between_errors (k : Nat) (l u x : Term) : ErrorsOk "between" [l, u, 
   all_goals (split <;> (try split) <;> simp)
 
 /-! ## succ/2 -/
-
-theorem succ_single_aux {x s : Term} {a b : Int} (hr : b = a + 1) (ha : 0 ≤ a)
-    (hdet : ∀ σ : Nat → Term, succT [substT σ x, substT σ s] → substT σ x = .int a ∧ substT σ s = .int b) :
-    Exact succT [x, s] (selectCands [x, s] [[.int a, .int b]]) := by
-  apply exact_selectCands
-  · intro c hc; simp at hc; subst hc
-    simp [succT, Relations.succ, hr, ha]
-  · intro t hr' hi
-    obtain ⟨σ, rfl⟩ := hi
-    obtain ⟨h1, h2⟩ := hdet σ hr'
-    simp [h1, h2]
-  · simp
 
 theorem C16_succ_exact {x s : Term} {ans : Answers} (h : Rel.succ x s = .ok ans) :
     Exact succT [x, s] ans := by
@@ -673,12 +568,6 @@ theorem C16_succ_exact {x s : Term} {ans : Answers} (h : Rel.succ x s = .ok ans)
           · cases h; exact aux
         · cases h
   · cases h
-
-theorem modeErrors_succ (x s : Term) : modeErrors "succ" [x, s] =
-    (if isVar x ∧ isVar s then [instErr] else []) ++ notLessThanZero x ++ notLessThanZero s := rfl
-
-theorem optionalErrors_succ_int (x : Int) (s : Term) : optionalErrors "succ" [.int x, s] =
-    if x = 9223372036854775807 then [evaluationErr "int_overflow"] else [] := rfl
 
 /-- succ/2 raises evaluation_error(int_overflow) exactly at max_integer: the successor of every
     other non-negative 64-bit integer is computed -/
@@ -872,15 +761,6 @@ theorem C16_functor_exact {t name arity : Term} {ans : Answers}
       rw [substT_tuple]
       cases t <;> simp_all [functorT, isAtomic, isVar, isCompound]
 
-theorem modeErrors_functor_var (v : Nat) (n a : Term) : modeErrors "functor" [.var v, n, a] =
-      (if isVar n ∨ isVar a then [instErr] else []) ++ mustBeIntOrVar a ++
-        (match a with | .int i => if i < 0 then [domainErr "not_less_than_zero" a] else [] | _ => []) ++
-        (if isCompound n then [typeErr "atomic" n] else []) ++
-        (match a with | .int i => if i > 0 ∧ isAtomic n ∧ !isAtom n then [typeErr "atom" n] else [] | _ => []) := rfl
-
-theorem optionalErrors_functor_var (v : Nat) (n : Term) (i : Int) : optionalErrors "functor" [.var v, n, .int i] =
-    if i > 1048576 then [resourceErr "memory"] else [] := rfl
-
 theorem C16_functor_errors (t name arity : Term) :
     ErrorsOk "functor" [t, name, arity] (Rel.functor t name arity) := by
   cases t with
@@ -965,10 +845,6 @@ theorem C16_arg_exact_partial {n t a : Term} {ans : Answers} (hg : groundT t = t
 
 example : Rel.arg (.int 2) (Term.a2 "f" (.atom "é") (.atom "€")) (.var 0) =
     .ok [[.int 2, Term.a2 "f" (.atom "é") (.atom "€"), .atom "€"]] := by decide +kernel
-
-theorem modeErrors_arg (n t a : Term) : modeErrors "arg" [n, t, a] =
-    (if isVar n ∨ isVar t then [instErr] else []) ++ notLessThanZero n ++
-      (if isVar t || isCompound t then [] else [typeErr "compound" t]) := rfl
 
 theorem C16_arg_errors (n t a : Term) : ErrorsOk "arg" [n, t, a] (Rel.arg n t a) := by
   apply errorsOk_of _ [] (modeErrors_arg n t a) rfl
@@ -1143,20 +1019,6 @@ theorem C16_univ_exact_partial {t l : Term} {ans : Answers}
         simp only [List.map, substT_ground σ _ hgt] at hr
         cases t <;> simp_all [univT, isAtomic, isVar, isCompound]
 
-theorem modeErrors_univ_var (v : Nat) (l : Term) : modeErrors "univ" [.var v, l] =
-      listErrors false l ++
-        (match l.spine.1, l.spine.2 with
-          | [], .atom "[]" => [domainErr "non_empty_list" l]
-          | [h], .atom "[]" => if isVar h then [instErr] else if isCompound h then [typeErr "atomic" h] else []
-          | h :: _ :: _, .atom "[]" =>
-            if isVar h then [instErr] else if isAtom h then [] else [typeErr "atom" h]
-          | h :: _, .var _ => if isVar h then [] else if isCompound h then [typeErr "atomic" h, typeErr "atom" h] else
-              if isAtom h then [] else [typeErr "atom" h]
-          | _, _ => []) := rfl
-
-theorem modeErrors_univ_nonvar (t l : Term) (h : isVar t = false) : modeErrors "univ" [t, l] = listErrors true l := by
-  cases t <;> simp_all [isVar] <;> rfl
-
 /-- =../2 against the ISO table; a call `T =.. L` with `T` occurring in `L` (cyclic answer) is
     outside the model -/
 theorem C16_univ_errors (t l : Term) (hocc : ∀ v, t = .var v → occursT v l = false) :
@@ -1212,78 +1074,6 @@ theorem C16_univ_errors (t l : Term) (hocc : ∀ v, t = .var v → occursT v l =
 
 /-! ## nth0/3, nth1/3 -/
 
-theorem nth_var_aux {base : Int} {v : Nat} {list elem : Term} (hg : groundT list = true) :
-    ExactInst (nthT base) [.var v, list, elem]
-      ((List.range list.spine.1.length).flatMap fun i =>
-        match list.spine.1[i]? with
-        | some e => unifyAns [.var v, list, elem] (tuple [.var v, elem]) (tuple [.int (base + Int.ofNat i), e])
-        | none => []) := by
-  have hges := ground_spine hg
-  have hkey : ∀ i e, list.spine.1[i]? = some e →
-      groundT (tuple [Term.int (base + Int.ofNat i), e]) = true := by
-    intro i e he
-    simp [groundT_tuple, groundT, hges e (List.mem_of_getElem? he)]
-  refine ⟨?_, ?_, ?_⟩
-  · intro t ht
-    simp only [List.mem_flatMap, List.mem_range] at ht
-    obtain ⟨i, hi, ht⟩ := ht
-    cases he : list.spine.1[i]? with
-    | none => simp [he] at ht
-    | some e =>
-      simp only [he] at ht
-      obtain ⟨θ, rfl, hθ, _⟩ := (unifyAns_ground (hkey i e he)).1 t ht
-      refine ⟨?_, ⟨θ.fn, rfl⟩⟩
-      rw [substT_tuple] at hθ
-      have := tuple_inj hθ
-      simp only [List.map, List.cons.injEq, and_true] at this
-      simp only [List.map, this.1, this.2, substT_ground _ _ hg, nthT, Relations.nth]
-      refine ⟨by simp only [Int.ofNat_eq_natCast]; omega, ?_⟩
-      have : (base + Int.ofNat i - base).toNat = i := by simp only [Int.ofNat_eq_natCast]; omega
-      rw [this, he]
-  · rintro t hr ⟨σ, rfl⟩
-    simp only [List.map, substT_ground _ _ hg] at hr ⊢
-    cases hn : substT σ (Term.var v) <;> simp only [hn, nthT] at hr
-    rename_i m
-    obtain ⟨hb, he⟩ := hr
-    have hi := (List.getElem?_eq_some_iff.mp he).1
-    have hσ : substT σ (tuple [Term.var v, elem]) =
-        tuple [.int (base + Int.ofNat (m - base).toNat), substT σ elem] := by
-      rw [substT_tuple]
-      simp only [List.map, hn]
-      congr 3
-      simp only [Int.ofNat_eq_natCast]; omega
-    obtain ⟨θ, hθ, habs⟩ := (unifyAns_ground (args := [.var v, list, elem]) (hkey _ _ he)).2.1 σ hσ
-    refine ⟨List.map (substT θ.fn) [Term.var v, list, elem], ?_, σ, ?_⟩
-    · simp only [List.mem_flatMap, List.mem_range]
-      exact ⟨(m - base).toNat, hi, by rw [he]; simp only; rw [hθ]; simp⟩
-    · simp [List.map, habs, hn, substT_ground _ _ hg]
-  · rw [List.Nodup, List.pairwise_flatMap]
-    constructor
-    · intro i _
-      split
-      · unfold unifyAns; split <;> simp
-      · simp
-    · apply List.Pairwise.imp_of_mem _ (List.nodup_range (n := list.spine.1.length))
-      intro i j _ _ hij x hx y hy hxy
-      subst hxy
-      cases hei : list.spine.1[i]? with
-      | none => simp [hei] at hx
-      | some ei =>
-        cases hej : list.spine.1[j]? with
-        | none => simp [hej] at hy
-        | some ej =>
-          simp only [hei] at hx
-          simp only [hej] at hy
-          obtain ⟨θ, rfl, hθ, _⟩ := (unifyAns_ground (hkey i ei hei)).1 _ hx
-          obtain ⟨θ', hxy, hθ', _⟩ := (unifyAns_ground (hkey j ej hej)).1 _ hy
-          rw [substT_tuple] at hθ hθ'
-          have h1 := tuple_inj hθ
-          have h2 := tuple_inj hθ'
-          simp only [List.map, List.cons.injEq, and_true] at h1 h2 hxy
-          rw [hxy.1, h2.1] at h1
-          simp only [Term.int.injEq, Int.ofNat_eq_natCast] at h1
-          omega
-
 /-- nth0/3 (`base = 0`) and nth1/3 (`base = 1`) on a ground list, index and element arbitrary
     patterns: one answer per position whose element matches -/
 theorem C16_nth_exact_partial {base : Int} {n list elem : Term} {ans : Answers}
@@ -1337,33 +1127,6 @@ theorem C16_nth1_exact_partial {n list elem : Term} {ans : Answers}
 example : Rel.nth1 (.var 0) (Term.list [.atom "a", .atom "é", .atom "a"]) (.atom "a") =
     .ok [[.int 1, Term.list [.atom "a", .atom "é", .atom "a"], .atom "a"],
          [.int 3, Term.list [.atom "a", .atom "é", .atom "a"], .atom "a"]] := by decide +kernel
-
-theorem nth_errors_aux (base : Int) (n l e : Term) :
-    let M := mustBeIntOrVar n ++ (if isVar n then listErrors false l else [])
-    let O := match n with | .int _ => listErrors false l | _ => []
-    (∀ err, Rel.nth base n l e = .error err → err ∈ M ++ O) ∧
-    (M = [] → O = [] → ∃ ans, Rel.nth base n l e = .ok ans) ∧
-    (instErr ∈ M → ∃ err, Rel.nth base n l e = .error err) := by
-  intro M O
-  simp only [M, O]
-  unfold Rel.nth
-  rw [listErrors_eq]
-  cases n with
-  | var v =>
-    simp only [mustBeIntOrVar, isVar, isInt]
-    cases hl : listErr false l l.spine.2 <;> simp
-  | int i =>
-    simp only [mustBeIntOrVar, isVar, isInt]
-    by_cases hlt : i < base
-    · simp [hlt]
-    · simp only [hlt, if_false]
-      cases he : l.spine.1[(i - base).toNat]? with
-      | some x => simp
-      | none => cases hl : listErr false l l.spine.2 <;> simp
-  | atom _ => simp [mustBeIntOrVar, isVar, isInt]
-  | flt _ => simp [mustBeIntOrVar, isVar, isInt]
-  | str _ => simp [mustBeIntOrVar, isVar, isInt]
-  | app _ _ => simp [mustBeIntOrVar, isVar, isInt]
 
 theorem C16_nth0_errors (n l e : Term) : ErrorsOk "nth0" [n, l, e] (Rel.nth0 n l e) := by
   have h := nth_errors_aux 0 n l e
@@ -1441,22 +1204,6 @@ theorem C16_length_exact_list {k : Nat} {es : List Term} {len : Term} {ans : Ans
     | str _ => simp [checkPositiveInteger] at hcpi
     | app _ _ => simp [checkPositiveInteger] at hcpi
 
-theorem lengthT_partial_iff (es : List Term) (s : Nat) (σ : Nat → Term) (m : Int) :
-    lengthT [substT σ (Term.list es (.var s)), .int m] ↔
-      ∃ r, σ s = Term.list r ∧ m = Int.ofNat (es.length + r.length) := by
-  rw [substT_list]
-  simp only [lengthT, substT]
-  constructor
-  · intro h
-    split at h
-    · rename_i es' hes'
-      obtain ⟨r, hr, rfl⟩ := asList_list_tail hes'
-      exact ⟨r, asList_eq_some_iff.mp hr, by simp [h]⟩
-    · exact h.elim
-  · rintro ⟨r, hr, rfl⟩
-    rw [hr, ← list_append]
-    simp
-
 /-- length/2 generating a list of a given length: `length([e₁,…|T], N)` with `N` an integer binds
     the tail to `N - n` fresh, pairwise distinct variables — the most general list of that length -/
 theorem C16_length_exact_rundown {k : Nat} {es : List Term} {s : Nat} {n : Int} {ans : Answers}
@@ -1523,12 +1270,6 @@ theorem C16_length_exact_rundown {k : Nat} {es : List Term} {s : Nat} {n : Int} 
 
 example : Rel.length 9 (Term.list [.atom "a"] (.var 0)) (.int 3) =
     .ok [[Term.list [.atom "a", .var 1, .var 2], .int 3]] := by decide +kernel
-
-/-- the j-th answer substitution of `lengthAddendum` -/
-def addendum (b s nv skipped j : Nat) : Nat → Term := fun v =>
-  if v = s then Term.list (freshVars b j)
-  else if v = nv then .int (Int.ofNat (skipped + j))
-  else .var v
 
 /-- length/2 with list tail and length both unbound — an infinite enumeration, stated per prefix:
     the first `k` answers are, in order, the most general lists of length `n, n+1, …, n+k-1`
@@ -1604,24 +1345,6 @@ theorem C16_length_enum {k : Nat} {es : List Term} {s nv : Nat} {ans : Answers} 
 example : Rel.length 3 (Term.list [.atom "a"] (.var 0)) (.var 1) =
     .ok [[Term.list [.atom "a"], .int 1], [Term.list [.atom "a", .var 2], .int 2],
          [Term.list [.atom "a", .var 2, .var 3], .int 3]] := by decide +kernel
-
-theorem suffix_var {es : List Term} {k : Nat} {tl : Term} {s : Nat}
-    (h : Term.list (es.drop k) tl = .var s) : es.length ≤ k ∧ tl = .var s := by
-  by_cases hk : k < es.length
-  · obtain ⟨e, rest, he⟩ := list_drop_of_lt tl hk
-    rw [he] at h; simp [Term.consT] at h
-  · rw [list_drop_of_ge tl (by omega)] at h
-    exact ⟨by omega, h⟩
-
-theorem modeErrors_length (l n : Term) : modeErrors "length" [l, n] = notLessThanZero n := rfl
-
-theorem optionalErrors_length_int (l : Term) (n : Int) : optionalErrors "length" [l, .int n] =
-    match l.spine.2 with
-    | .var _ => if n - Int.ofNat l.spine.1.length > 1048576 then [resourceErr "memory"] else []
-    | _ => [] := rfl
-
-theorem optionalErrors_length_var (l : Term) (n : Nat) : optionalErrors "length" [l, .var n] =
-    if l.spine.2 = .var n then [resourceErr "finite_memory"] else [] := rfl
 
 theorem C16_length_errors (k : Nat) (l len : Term) : ErrorsOk "length" [l, len] (Rel.length k l len) := by
   cases len with
@@ -1780,5 +1503,71 @@ theorem C16_append_exact_concat_partial {fuel : Nat} {e : Term} {es : List Term}
     simp only [List.map, substT_ground σ _ hg, substT_ground σ _ hgy, appendT, asList_list] at hr
     exact hr
 
+
+/-! ## further "consequently" corollaries -/
+
+theorem C16_atom_chars_monotone {a l a' l' : Term} {ans ans' : Answers}
+    (h : Rel.atomChars a l = .ok ans) (h' : Rel.atomChars a' l' = .ok ans') (hi : IsInstance [a, l] [a', l']) :
+    ans'.Perm (ans.filter fun t => decide (IsInstance [a', l'] t)) :=
+  C16_monotone (C16_atom_chars_exact h) (C16_atom_chars_exact h') hi
+
+theorem C16_atom_codes_monotone {a l a' l' : Term} {ans ans' : Answers}
+    (h : Rel.atomCodes a l = .ok ans) (h' : Rel.atomCodes a' l' = .ok ans') (hi : IsInstance [a, l] [a', l']) :
+    ans'.Perm (ans.filter fun t => decide (IsInstance [a', l'] t)) :=
+  C16_monotone (C16_atom_codes_exact h) (C16_atom_codes_exact h') hi
+
+theorem C16_char_code_monotone {c n c' n' : Term} {ans ans' : Answers}
+    (h : Rel.charCode c n = .ok ans) (h' : Rel.charCode c' n' = .ok ans') (hi : IsInstance [c, n] [c', n']) :
+    ans'.Perm (ans.filter fun t => decide (IsInstance [c', n'] t)) :=
+  C16_monotone (C16_char_code_exact h) (C16_char_code_exact h') hi
+
+theorem C16_between_monotone {k : Nat} {l u x l' u' x' : Term} {ans ans' : Answers}
+    (hk : BetweenFuel k l u) (hk' : BetweenFuel k l' u')
+    (h : Rel.between k l u x = .ok ans) (h' : Rel.between k l' u' x' = .ok ans')
+    (hi : IsInstance [l, u, x] [l', u', x']) :
+    ans'.Perm (ans.filter fun t => decide (IsInstance [l', u', x'] t)) :=
+  C16_monotone (C16_between_exact hk h) (C16_between_exact hk' h') hi
+
+/-- the same for answers that may contain variables: the answers of the more instantiated call are
+    covered by answers of the more general one, and every answer of the general call that still
+    has an instance matching the instantiated call is represented -/
+theorem C16_monotone_inst {R : List Term → Prop} {args args' : List Term} {ans ans' : Answers}
+    (h : ExactInst R args ans) (h' : ExactInst R args' ans') (hi : IsInstance args args') :
+    (∀ t' ∈ ans', ∃ t ∈ ans, IsInstance t t') ∧
+    (∀ t, R t → IsInstance args' t → ∃ t' ∈ ans', IsInstance t' t) :=
+  ⟨fun t' ht' => h.complete t' (h'.sound t' ht').1 (hi.trans (h'.sound t' ht').2),
+   fun t hr hi' => h'.complete t hr hi'⟩
+
+/-! ## open statements (full strength; proved above in the `_partial` form, i.e. on ground data) -/
+
+/-- arg/3 on arbitrary (also non-ground) terms -/
+def C16_arg_exact_statement : Prop :=
+  ∀ (n t a : Term) (ans : Answers), (∀ f, t ≠ .app f .nil) → Rel.arg n t a = .ok ans → ExactInst argT [n, t, a] ans
+
+/-- =../2 decomposing arbitrary (also non-ground) compound terms -/
+def C16_univ_exact_statement : Prop :=
+  ∀ (t l : Term) (ans : Answers), (∀ f, t ≠ .app f .nil) → Rel.univ t l = .ok ans → ExactInst univT [t, l] ans
+
+/-- nth0/nth1 on lists with arbitrary (also non-ground) elements -/
+def C16_nth_exact_statement : Prop :=
+  ∀ (base : Int) (n list elem : Term) (ans : Answers), Rel.nth base n list elem = .ok ans →
+    ExactInst (nthT base) [n, list, elem] ans
+
+/-- member/2: completeness (every member is enumerated; `fuel` = length of the longest derivation) -/
+def C16_member_complete_statement : Prop :=
+  ∀ (fuel : Nat) (x : Term) (es : List Term) (ans : Answers), es.length + 2 ≤ fuel →
+    Rel.member fuel x (Term.list es) = .ok ans →
+    (∀ t, memberT t → IsInstance [x, Term.list es] t → ∃ a ∈ ans, IsInstance a t) ∧ ans.length ≤ es.length
+
+/-- select/3: completeness, one answer per position -/
+def C16_select_complete_statement : Prop :=
+  ∀ (fuel : Nat) (e r : Term) (es : List Term) (ans : Answers), es.length + 2 ≤ fuel →
+    Rel.select fuel e (Term.list es) r = .ok ans →
+    (∀ t, selectT t → IsInstance [e, Term.list es, r] t → ∃ a ∈ ans, IsInstance a t) ∧ ans.length ≤ es.length
+
+/-- append/3 splitting a list: completeness and exactly-once -/
+def C16_append_exact_statement : Prop :=
+  ∀ (fuel : Nat) (xs ys : Term) (zs : List Term) (ans : Answers), zs.length + 2 ≤ fuel →
+    Rel.append fuel xs ys (Term.list zs) = .ok ans → ExactInst appendT [xs, ys, Term.list zs] ans
 
 end PrologVerif.C16
